@@ -516,7 +516,7 @@ Definition p_drop_series (sf : sfile) (maxlog : N) (id : N) (p : part) : part :=
 
 (** Partition.DropMeasurement: tombstone every non-deleted key and (for the files up to the first
     one that deletes the key) value, every series of the measurement, then the measurement;
-    the partition's series id set is NOT updated *)
+    every tombstoned series id is also removed from the partition's series id set *)
 Definition drop_meas_entries (fs : list file) (m : str) : list entry :=
   flat_map (fun k =>
               (if live_flag tk_del (first_some (fun f => fkey f m k) fs) then [mk_del_key m k] else [])
@@ -528,7 +528,8 @@ Definition drop_meas_entries (fs : list file) (m : str) : list entry :=
   ++ map (mk_series true) (q_mseries fs m)
   ++ [mk_del_meas m].
 Definition p_drop_meas (sf : sfile) (maxlog : N) (m : str) (p : part) : part :=
-  p_check maxlog (fold_left (fun p e => p_append sf e p) (drop_meas_entries (p_files p) m) p).
+  let p1 := fold_left (fun p e => p_append sf e p) (drop_meas_entries (p_files p) m) p in
+  p_check maxlog {| p_files := p_files p1; p_set := sdiff (p_set p1) (q_mseries (p_files p) m) |}.
 
 (** Partition.Open of a partition whose log files have the given recovered entries *)
 Definition p_build_set (fs : list file) : list N :=
@@ -748,12 +749,12 @@ Definition obs_eq (a b : obs) : bool :=
 (** The oracle.  [strict] = the property's full statement: every listing equals that of the live
     series.  Non-strict = the strongest statement the unchanged code satisfies (see Props/C14.v):
     series sets exact; tag keys / values: every live one is listed and every listed one belonged
-    to a series that was created at some time; measurement names and Index.SeriesIDSet: exact unless
-    Index.DropMeasurement was applied earlier ([raw] = true), then the same sandwich. *)
+    to a series that was created at some time; measurement names and Index.SeriesIDSet: exact
+    ([raw] = Index.DropMeasurement was applied earlier; it weakened these two clauses until
+    Partition.DropMeasurement was repaired to update the partition's series id set, and is unused now). *)
 Definition sandwich (lo hi x : list str) : bool := strs_sub lo x && strs_sub x hi.
 Definition oracle (u : universe) (strict raw : bool) (sp : spec) (o : obs) : bool :=
-  (if strict || negb raw then strs_eq (o_meas o) (spec_meas sp true)
-   else sandwich (spec_meas sp true) (spec_meas sp false) (o_meas o))
+  strs_eq (o_meas o) (spec_meas sp true)
   && all2 (fun m x => if strict then strs_eq x (spec_keys sp true m)
                       else sandwich (spec_keys sp true m) (spec_keys sp false m) x) (u_ms u) (o_keys o)
   && all2 (fun mk x => if strict then strs_eq x (spec_vals sp true (fst mk) (snd mk))
@@ -762,8 +763,7 @@ Definition oracle (u : universe) (strict raw : bool) (sp : spec) (o : obs) : boo
   && all2 (fun m x => ids_eq x (spec_ms sp m)) (u_ms u) (o_ms o)
   && all2 (fun mk x => ids_eq x (spec_ks sp (fst mk) (snd mk))) (pairs2 u) (o_ks o)
   && all2 (fun t x => ids_eq x (spec_vs sp (fst (fst t)) (snd (fst t)) (snd t))) (triples u) (o_vs o)
-  && (if strict || negb raw then ids_eq (o_set o) (spec_set sp true)
-      else ids_sub (spec_set sp true) (o_set o) && ids_sub (o_set o) (spec_set sp false)).
+  && ids_eq (o_set o) (spec_set sp true).
 
 (* ------------------------------------------------------------------------- *)
 (** * Crash images: the active log of one partition cut after [cut] bytes, index reopened *)
